@@ -19,10 +19,12 @@ CONSTANTS NWS,        \* numbers of Wannier functions of the base systems
           MAXSOC,     \* SOC terms per SOC data set
           DEN,        \* alpha = a/DEN, a in 0..DEN
           SC,         \* all amplitudes and on-site energies are multiples of SC (SC = DEN makes the interpolation exact)
-          Variant     \* "ok"; wrong variants for the sensitivity self-tests: "keepcentres", "anyU", "blockspin"
+          Variant     \* "ok"; wrong variants for the sensitivity self-tests: "keepcentres", "anyU", "blockspin", "intersect"
 
-VARIABLES base, kind, cur, prev, hist
-vars == <<base, kind, cur, prev, hist>>
+VARIABLES base, kind, cur, prev, hist,
+          obs,        \* observation of cur: [k \in KS |-> <<H(k), characteristic polynomial of H(k)>>]
+          aux         \* Ham_SOC of a spin-orbit system with SOC, <<>> otherwise
+vars == <<base, kind, cur, prev, hist, obs, aux>>
 
 RGEN == IF KDIRS = 1 THEN {<<1, 0, 0>>} ELSE {<<1, 0, 0>>, <<0, 1, 0>>}
 (* three of the four quarter points per active direction decide a trigonometric polynomial of degree 1 *)
@@ -46,33 +48,22 @@ WithX(s) == [s EXCEPT !.hasX = TRUE,
 Plain(nw, maxhops, neps, ncen, extras) ==
    Catalogue(nw, FirstN(CenChoices(nw), ncen), FirstN(EpsChoices(nw), neps), RGEN, AMPS, maxhops, extras)
 BaseCat == UNION {{IF x THEN WithX(s) ELSE s : s \in Plain(nw, MAXHOPS, NEPS, NCEN, {{}})} : nw \in NWS, x \in WITHX}
-(* partners: other centres first (reversed choice order), an R-vector stored with zeros, with and without X *)
+(* partners (second operand of MakeSOC / Interpolate): other centres, hops along the first direction with imaginary amplitude,
+   optionally an R-vector of the second direction stored with zeros (so that the R-sets differ), with and without X *)
 Partners(nw) ==
-   LET P == Catalogue(nw, FirstN(Reverse(CenChoices(nw)), 2), FirstN(Reverse(EpsChoices(nw)), 1), RGEN, AMPS, MAXHOPS2, {{}, {<<0, 1, 0>>}})
+   LET P == Catalogue(nw, FirstN(Reverse(CenChoices(nw)), 1), FirstN(Reverse(EpsChoices(nw)), 1), {<<1, 0, 0>>}, {<<0, SC>>}, MAXHOPS2,
+                      {{}, {<<0, 1, 0>>}})
    IN P \cup {WithX(s) : s \in {p \in P : p.rs = {Z3}}}
 
-(* SOC data: terms [st, R, m, n, c, t], hermitian completion inside the diagonal spin blocks *)
-SocSlots(nw) == {sl \in [st : {"00", "11", "01"}, R : {Z3, <<1, 0, 0>>}, m : 1..nw, n : 1..nw, c : 1..3] : TRUE}
-SocTerms(nw) == {[st |-> sl.st, R |-> sl.R, m |-> sl.m, n |-> sl.n, c |-> sl.c, t |-> t] : sl \in SocSlots(nw), t \in {<<1, 0>>, <<0, 1>>}}
-SelfConj(tm) == tm.st # "01" /\ tm.R = Z3 /\ tm.m = tm.n
-SocTermSets(nw) == {T \in UNION {kSubset(j, SocTerms(nw)) : j \in 0..MAXSOC} :
-                       /\ \A tm \in T : SelfConj(tm) => GIsReal(tm.t)
-                       /\ \A t1, t2 \in T : (t1.st = t2.st /\ t1.R = t2.R /\ t1.m = t2.m /\ t1.n = t2.n /\ t1.c = t2.c) => t1 = t2}
-SocFromTerms(nw, T) ==
-   LET rsS == {Z3} \cup {tm.R : tm \in T} \cup {VNeg(tm.R) : tm \in T}
-   IN [rsS |-> rsS,
-       D |-> [st \in {"00", "11", "01"} |-> FunR(rsS, LAMBDA R : Mat(nw, LAMBDA m, n : Vec(3, LAMBDA c :
-                FoldSet(LAMBDA tm, acc : GAdd(acc, GAdd(
-                           IF tm.st = st /\ tm.R = R /\ tm.m = m /\ tm.n = n /\ tm.c = c THEN tm.t ELSE GZ,
-                           IF st # "01" /\ ~SelfConj(tm) /\ tm.st = st /\ VNeg(tm.R) = R /\ tm.n = m /\ tm.m = n /\ tm.c = c
-                              THEN GConj(tm.t) ELSE GZ)), GZ, T))))]]
-SocCat(nw) == {SocFromTerms(nw, T) : T \in SocTermSets(nw)}
+SocCat(nw) == SocCatalogue(nw, MAXSOC)
 
 Units(s) == LET all == {[a \in 1..s.nw |-> [b \in 1..s.nw |-> IF b = p[a] THEN IPow(e[a]) ELSE GZ]] : p \in Perms(s.nw), e \in [1..s.nw -> PHS]}
             IN IF Variant = "anyU" THEN all ELSE {U \in all : CoCentred(s, U)}
 
-Init == /\ base \in BaseCat /\ cur = base /\ prev = base /\ kind = "R" /\ hist = <<>>
-Step(op, k2, new) == /\ Len(hist) < MAXLEN /\ hist' = Append(hist, op) /\ prev' = cur /\ cur' = new /\ kind' = k2 /\ UNCHANGED base
+Obs(k2, s) == [k \in KS |-> LET hk == IF k2 = "SOC" THEN HkSOC(s, k) ELSE Hk(s, k) IN <<hk, CharPoly(hk)>>]
+Aux(k2, s) == IF k2 = "SOC" /\ s.hassoc THEN HamSOC(s) ELSE <<>>
+Init == /\ base \in BaseCat /\ cur = base /\ prev = base /\ kind = "R" /\ hist = <<>> /\ obs = Obs("R", base) /\ aux = <<>>
+Step(op, k2, new) == /\ Len(hist) < MAXLEN /\ hist' = Append(hist, op) /\ prev' = cur /\ cur' = new /\ kind' = k2 /\ obs' = Obs(k2, new) /\ aux' = Aux(k2, new) /\ UNCHANGED base
 
 DoReorder == /\ "Reorder" \in OPS /\ kind = "R"
              /\ \E p \in Perms(cur.nw) : Step([op |-> "Reorder", p |-> p], "R",
@@ -92,7 +83,8 @@ DoToPlainR == /\ "ToPlainR" \in OPS /\ kind = "SOC" /\ cur.hassoc
 DoInterpolate == /\ "Interpolate" \in OPS /\ kind = "R"
                  /\ \E s1 \in Partners(cur.nw), a \in 0..DEN :
                        /\ InterpExact(cur, s1, a, DEN)
-                       /\ Step([op |-> "Interpolate", s1 |-> s1, a |-> a, den |-> DEN], "R", Interpolate(cur, s1, a, DEN))
+                       /\ Step([op |-> "Interpolate", s1 |-> s1, a |-> a, den |-> DEN], "R",
+                               IF Variant = "intersect" THEN InterpolateIntersect(cur, s1, a, DEN) ELSE Interpolate(cur, s1, a, DEN))
 Next == DoReorder \/ DoRotate \/ DoDoubleSpin \/ DoMakeSOC \/ DoSetSOC \/ DoToPlainR \/ DoInterpolate
 Spec == Init /\ [][Next]_vars
 
@@ -107,5 +99,5 @@ LawMakeSOC == kind = "SOC" => SocDataHermitian(cur) /\ MakeSOCLaws(cur, KS)
 LawToPlainR == After("ToPlainR") => ToPlainRLaws(prev, cur, KS)
 (* C26 *)
 LawInterpolate == After("Interpolate") => InterpolateLaws(prev, LastOp.s1, LastOp.a, LastOp.den, cur, KS)
-AlwaysHermitian == kind = "R" => HermSys(cur) /\ (hist = <<>> => \A k \in KS : IsHermitian(Hk(cur, k)) /\ CharPolyReal(Hk(cur, k)))
+AlwaysHermitian == (kind = "R" => HermSys(cur)) /\ \A k \in KS : IsHermitian(obs[k][1]) /\ \A j \in 1..Len(obs[k][2]) : GIsReal(obs[k][2][j])
 =============================================================================
